@@ -180,6 +180,120 @@ def run_setter_case(acc: Acc, case):
     return fails
 
 
+# ---------------------------------------------------------------------------------------------
+# end-to-end histories: a valid setter, then read-only calls over a faulty network (retries, reconnects)
+# ---------------------------------------------------------------------------------------------
+E2E_SETTERS = {
+    "set_grid_export_limit": lambda inv: inv.set_grid_export_limit(4000),
+    "set_ongrid_battery_dod": lambda inv: inv.set_ongrid_battery_dod(30),
+    "set_operation_mode_general": lambda inv: inv.set_operation_mode(0),
+    "write_setting_switch": lambda inv: inv.write_setting("eco_mode_2_switch", 0),
+}
+E2E_READS = ("read_runtime_data", "read_settings_data", "get_grid_export_limit", "get_operation_mode", "get_ongrid_battery_dod",
+             "read_sensor", "read_setting", "read_device_info")
+E2E_FAULTS = {
+    "none": {},
+    "drop-then-answer": {"script": [["drop"], ["answer", 1]]},
+    "garbage-then-answer": {"script": [["garbage", 2], ["answer", 1]]},
+    "send-error-then-answer": {"script": [["senderr", "ECONNREFUSED"], ["answer", 1]]},
+    "peer-closes-then-answer": {"script": [["eof", 2], ["answer", 1]]},
+    "connect-refused-once": {"connect": ["refused"]},
+    "connect-refused-twice": {"connect": ["refused", "refused"]},
+    "connect-hangs-once": {"connect": ["hangs"]},
+    "fragment-then-answer": {"script": [["lone", 9, 2], ["answer", 1]]},
+}
+
+
+def is_write_frame(data: bytes, tcp: bool) -> bool:
+    if data[:2] == b"\xaa\x55":
+        return len(data) > 4 and data[4] in (2, 3)
+    if tcp:
+        return len(data) > 7 and data[7] in (6, 16)
+    return len(data) > 1 and data[1] in (6, 16)
+
+
+def run_e2e_history(acc: Acc, case):
+    import asyncio
+    from vlib.vloop import ScriptedPeer, VLoop, World
+    from vlib import netcase
+    acc.case()
+    cfg = dict(case["cfg"])
+    fam = cfg["family"]
+    tcp = bool(cfg.get("tcp"))
+    acc.nontrivial("H", fam, cfg["serial"], tcp, case["setter"], case["read"], case["fault"], case.get("keep"))
+    inv = siminv.make_inverter(fam, tcp, T=1.0, R=2)
+    inv.set_keep_alive(bool(case.get("keep")))
+    _, sim = siminv.build_direct(dict(cfg), default=0x0101)
+    if fam == "ES":
+        sim.modbus.default = 0x0101
+    peer = ScriptedPeer(siminv.responder_for(inv, sim), [], default=("answer", 0.0))
+    world = World(peer)
+    loop = VLoop(world, max_time=1e5)
+    marks = {}
+
+    async def main():
+        await inv.read_device_info()
+        if case["setter"] in E2E_SETTERS and not (fam == "DT" and case["setter"] != "set_grid_export_limit"):
+            try:
+                await E2E_SETTERS[case["setter"]](inv)
+            except Exception:
+                pass
+        f = E2E_FAULTS[case["fault"]]
+        peer.set_script(netcase.to_actions(f.get("script", []), 1.0), default=("answer", 0.0))
+        world.connect_script = list(f.get("connect", []))
+        marks["start"] = len(world.tx)
+        try:
+            await do_read_call(inv, case["read"], case.get("arg", 3))
+        except Exception:
+            pass
+        marks["end"] = len(world.tx)
+
+    out = loop.run(main())
+    loop.idle()
+    loop.shutdown()
+    if out.hang is not None:
+        return [("C18|%s|e2e-hang" % fam, str(out.hang), case)]
+    if out.exc is not None:
+        return [("C18|%s|e2e-harness|%s" % (fam, type(out.exc).__name__), repr(out.exc), case)]
+    fails = []
+    for t, tid, data, failed in world.tx[marks.get("start", 0):marks.get("end", 0)]:
+        if is_write_frame(data, tcp):
+            fails.append(("C18|%s|read-call-wrote|e2e|%s" % (fam, "tcp" if tcp else "udp"),
+                          "%s() after %s over a network with fault '%s' transmitted the write frame %s" % (
+                              case["read"], case["setter"], case["fault"], data.hex()), case))
+            break
+    return fails
+
+
+def e2e_job(job):
+    part, parts = job
+    acc = Acc()
+    cfgs = [{"family": "ET", "serial": b"9010KETU000W0000", "rated_power": 10000, "refuse": [], "battery_mode": 1, "tcp": False},
+            {"family": "ET", "serial": b"9010KETU000W0000", "rated_power": 10000, "refuse": [], "battery_mode": 1, "tcp": True},
+            {"family": "DT", "serial": b"9010KDTU000W0000", "refuse": [], "tcp": True},
+            {"family": "DT", "serial": b"9010KDTU000W0000", "refuse": [], "tcp": False},
+            {"family": "ES", "serial": b"95048ESU000W0000", "firmware": b"2214E"}]
+    i = 0
+    for cfg in cfgs:
+        for setter in E2E_SETTERS:
+            for read in E2E_READS:
+                for fault in E2E_FAULTS:
+                    for keep in (False, True):
+                        i += 1
+                        if i % parts != part:
+                            continue
+                        if cfg["family"] == "DT" and read in ("get_operation_mode", "get_ongrid_battery_dod"):
+                            continue
+                        if not cfg.get("tcp") and fault.startswith("connect"):
+                            continue
+                        case = {"cfg": cfg, "setter": setter, "read": read, "fault": fault, "keep": keep, "arg": i}
+                        for key, msg, c in run_e2e_history(acc, case):
+                            acc.fail(key, msg, c)
+                        if len(acc.samples) < 1 and fault == "connect-refused-once":
+                            acc.sample(case)
+    return acc
+
+
 def _apply(acc, case, fn):
     for key, msg, c in fn(acc, case):
         acc.fail(key, msg, c)
@@ -305,12 +419,15 @@ def hyp_job(job):
 def run(ctx):
     ctx.shard(read_grid_job, [(p, 16, ctx.quick) for p in range(16)], "read-only API x configurations (every call; ids swept), connect/discover end-to-end")
     ctx.shard(setter_job, [(f, ctx.quick) for f in ("ET", "DT", "ES")], "setters: integer ranges around the valid intervals + in-range control calls")
+    ctx.shard(e2e_job, [(p, 16) for p in range(16)], "end-to-end histories: valid setter, then each read-only call over each network fault (retries / reconnects), raw frames classified at the peer")
     n = ctx.pick(2400, 50000)
     ctx.shard(hyp_job, [(ctx.seed * 1000 + i, n // 16) for i in range(16)], "hypothesis call sequences / setter arguments")
 
 
 def replay(ctx, case):
-    if "setter" in case:
+    if "fault" in case:
+        _apply(ctx.acc, case, run_e2e_history)
+    elif "setter" in case:
         _apply(ctx.acc, case, run_setter_case)
     elif "entry" in case:
         _apply(ctx.acc, case, run_entry_case)
